@@ -77,8 +77,14 @@ func (it c08Item) build() (ast.Constant, error) {
 	return it.V.Const(), nil
 }
 
+// Keys include distinct constants with equal Hash(): across kinds (1 / time 1 / duration 1 /
+// float bits, /a vs "/a", [1] vs 65792) and within one compound shape (the pairing of
+// component hashes shifts the first component left by the shape tag and drops its top
+// bits: fn:pair(1,"x") ~ fn:pair(1+2^57,"x"), [1] ~ [1+2^56]).
 var c08KeyPool = []gen.Val{gen.Num(1), gen.TimeV(1), gen.Dur(1), gen.Float(1.0), gen.Num(4607182418800017408), gen.ListV(gen.Num(1)), gen.Num(65792),
-	gen.Name("/a"), gen.Str("a"), gen.Str("/a"), gen.Num(2), gen.Name("/b"), gen.BytesV([]byte("a"))}
+	gen.Name("/a"), gen.Str("a"), gen.Str("/a"), gen.Num(2), gen.Name("/b"), gen.BytesV([]byte("a")),
+	gen.PairV(gen.Num(1), gen.Str("x")), gen.PairV(gen.Num(1+1<<57), gen.Str("x")), gen.ListV(gen.Num(1 + 1<<56)), gen.ListV(gen.Num(1), gen.Num(0)),
+	gen.PairV(gen.Num(3), gen.Num(4)), gen.PairV(gen.Num(3+1<<57), gen.Num(4)), gen.ListV(gen.Num(2), gen.Num(5)), gen.ListV(gen.Num(2+1<<56), gen.Num(5))}
 
 func mutateLeaf(r *rand.Rand, v gen.Val) gen.Val {
 	if len(v.Kids) > 0 && r.Intn(4) > 0 {
